@@ -1806,8 +1806,13 @@ namespace bloch::compiler {
     }
 
     void SemanticAnalyser::visit(EchoStatement& node) {
-        if (node.value)
+        if (node.value) {
+            if (inferTypeInfo(node.value.get()).value == ValueType::Void) {
+                throw BlochError(ErrorCategory::Semantic, node.line, node.column,
+                                 "cannot echo the result of a 'void' call");
+            }
             node.value->accept(*this);
+        }
     }
 
     void SemanticAnalyser::visit(ResetStatement& node) {
@@ -2484,14 +2489,25 @@ namespace bloch::compiler {
     void SemanticAnalyser::visit(IndexExpression& node) {
         if (node.collection)
             node.collection->accept(*this);
-        if (node.index)
+        if (node.index) {
+            if (inferTypeInfo(node.index.get()).value == ValueType::Void) {
+                throw BlochError(ErrorCategory::Semantic, node.line, node.column,
+                                 "the result of a 'void' call cannot be used as an index");
+            }
             node.index->accept(*this);
+        }
     }
 
     void SemanticAnalyser::visit(ArrayLiteralExpression& node) {
-        for (auto& el : node.elements)
-            if (el)
-                el->accept(*this);
+        for (auto& el : node.elements) {
+            if (!el)
+                continue;
+            if (inferTypeInfo(el.get()).value == ValueType::Void) {
+                throw BlochError(ErrorCategory::Semantic, el->line, el->column,
+                                 "the result of a 'void' call cannot be an array element");
+            }
+            el->accept(*this);
+        }
     }
 
     void SemanticAnalyser::visit(ParenthesizedExpression& node) {
@@ -2803,6 +2819,10 @@ namespace bloch::compiler {
                 throw BlochError(ErrorCategory::Semantic, p->line, p->column,
                                  "'" + p->name + "' is already declared in this scope");
             }
+            if (pt.value == ValueType::Void) {
+                throw BlochError(ErrorCategory::Semantic, p->line, p->column,
+                                 "parameters cannot have type 'void'");
+            }
             declare(p->name, false, pt);
             p->accept(*this);
         }
@@ -2852,6 +2872,10 @@ namespace bloch::compiler {
             if (isDeclared(p->name)) {
                 throw BlochError(ErrorCategory::Semantic, p->line, p->column,
                                  "'" + p->name + "' is already declared in this scope");
+            }
+            if (pt.value == ValueType::Void) {
+                throw BlochError(ErrorCategory::Semantic, p->line, p->column,
+                                 "parameters cannot have type 'void'");
             }
             declare(p->name, false, pt);
             p->accept(*this);
